@@ -426,10 +426,13 @@ def close_changes(base: dict, loaded: dict, found: dict, use_wanted: bool, soft:
                 if other != cur and root_of(other) == root:
                     add(other, cause, "widen")
         # "any other module, app or script that imports that module directly or indirectly is reloaded too"
+        # (an import of any file of a package is an import of that package: "any changes to a module's files will
+        # cause all of the module files to be unloaded, and any scripts or apps that import that module will be
+        # reloaded" - this also covers an importer whose recorded target is no longer loaded)
         for other in sorted(loaded):
             ent = loaded[other]
             edges = ent["wanted"] if use_wanted else ent["imports"]
-            if cur in edges:
+            if cur in edges or (root is not None and root_of(other) != root and any(root_of(t) == root for t in edges)):
                 add(other, cause, "import")
     return changed
 
@@ -1180,7 +1183,7 @@ def cause_class(default: str, sig: dict) -> str:
     """Violations whose cause (per the reference) is the removal of a non-auto-loaded file get their own classes."""
     place, via = sig.get("place", ""), sig.get("via", "")
     if sig.get("change") == "removed" and sig.get("op") in ("delete", "hash"):
-        if place.endswith("_pkg_sibling") and "widen" in via:
+        if place.endswith("_pkg_sibling") and via != "direct":
             return "C10.deleted_sibling_not_widened"      # a package lost a sibling file: package not reloaded
         if place.endswith("_pkg_init") and via.startswith("widen"):
             return "C10.deleted_pkg_init_siblings_kept"   # a package lost its __init__.py: siblings stay loaded
